@@ -2,8 +2,8 @@
 C12 — SafeKV is data-race free and every operation is atomic.  ONLY property theorems
 and non-vacuity examples live here; helper lemmas are in `Golib/Proof/C12*.lean`.
 -/
-import Golib.Proof.C12Race
-import Golib.Model.C12KV
+import Golib.Proof.C12Atomic
+import Golib.Proof.C12KVSpec
 import Golib.Gen.FactsC12
 
 namespace Golib.C12
@@ -52,8 +52,177 @@ theorem c12_safekv_raceFree (s₀ : KV) (calls : Nat → List Call) (init : Nat 
   simp only [bodyOK, Bool.and_eq_true] at this
   exact this.1
 
+/-- `c12_no_interference`: while a goroutine holds the lock in either mode, no step of
+any OTHER goroutine changes the shared state (well-locked bodies, every reachable
+configuration, every schedule). -/
+theorem c12_no_interference {σ μ : Type} (s₀ : σ) (prog : Nat → List (Act σ μ)) (init : Nat → μ)
+    (h : ∀ t, wellLocked (evs (prog t)) = true)
+    (c : Conf σ μ) (hr : Reach (Conf.init s₀ prog init) c)
+    (t : Nat) (a : Act σ μ) (as : List (Act σ μ)) (hrest : (c.th t).rest = a :: as)
+    (u : Nat) (hut : u ≠ t) (hu : (c.th u).mode ≠ .free) :
+    (c.after t a as).sh = c.sh := by
+  have hi := (LockInv.init s₀ prog init h).reach hr
+  show (a.apply c.sh (c.th t).loc).1 = c.sh
+  cases hw : a.ev.writes
+  · exact apply_fst_of_not_writes a _ _ hw
+  · exfalso
+    have hacc : a.ev.isAccess = true := by
+      cases he : a.ev <;> simp_all [Ev.writes, Ev.isAccess]
+    exact hu (hi.excl t u (Ne.symm hut) ((hi.access_mode hrest hacc).2 hw))
+
+/-- `c12_atomic`: goroutine `t` executes the call `prog t` (any body that is well locked
+with one critical section) from local state `init t`.  In EVERY reachable configuration
+of EVERY schedule, with `c.order` = the goroutines in the order in which they entered
+their critical section and `q` = the SEQUENTIAL execution of those calls in that order
+(each call one uninterrupted function, `seqExec`):
+* whenever no goroutine is inside a write section, the shared state IS `q`'s state;
+* every call that has finished returned exactly what it returns in `q`;
+* nobody enters twice; a finished call that never entered is a pure local computation. -/
+theorem c12_atomic {σ μ : Type} (s₀ : σ) (prog : Nat → List (Act σ μ)) (init : Nat → μ)
+    (h : ∀ t, bodyOK (evs (prog t)) = true)
+    (c : Conf σ μ) (hr : Reach (Conf.init s₀ prog init) c) :
+    c.order.Nodup ∧
+    ((∀ t, (c.th t).mode ≠ .w) → c.sh = (seqExec prog init c.order s₀).1) ∧
+    (∀ t ∈ c.order, (c.th t).rest = [] →
+        List.lookup t (seqExec prog init c.order s₀).2 = some (c.th t).loc) ∧
+    (∀ t, t ∉ c.order → (c.th t).rest = [] →
+        ∀ s, runActs (prog t) s (init t) = (s, (c.th t).loc)) := by
+  have hi := AInv.reach prog init s₀ h hr
+  refine ⟨hi.nodup, hi.shFree, fun t ht hdone => ?_, fun t ht hdone s => ?_⟩
+  · have := (hi.post t ht).2
+    rwa [hdone] at this
+  · have := (hi.pre t ht).2.2 s
+    rw [hdone] at this
+    exact this.symm
+
+/-- SafeKV instance of `c12_atomic`: any goroutines, each performing any SafeKV call
+(the modelled bodies are the extracted ones, `c12_model_matches_facts`). -/
+theorem c12_safekv_atomic (s₀ : KV) (calls : Nat → Call) (c : Conf KV Loc)
+    (hr : Reach (Conf.init s₀ (fun t => body (calls t)) (fun t => (calls t).init)) c) :
+    c.order.Nodup ∧
+    ((∀ t, (c.th t).mode ≠ .w) →
+        c.sh = (seqExec (fun t => body (calls t)) (fun t => (calls t).init) c.order s₀).1) ∧
+    (∀ t ∈ c.order, (c.th t).rest = [] →
+        List.lookup t (seqExec (fun t => body (calls t)) (fun t => (calls t).init) c.order s₀).2
+          = some (c.th t).loc) := by
+  have := c12_atomic s₀ (fun t => body (calls t)) (fun t => (calls t).init)
+    (fun t => c12_bodies_ok (calls t)) c hr
+  exact ⟨this.1, this.2.1, this.2.2.1⟩
+
+/-- `c12_body_spec`: each body, run uninterrupted, is the plain-map function
+(`KV.get` = the finite-map reading; the harness compares the same bodies with the real
+SafeKV on every run). -/
+theorem c12_body_spec (s : KV) (k v : Int) :
+    -- Get / Has / Contains
+    (seqCall (.get k) s).1 = s ∧ (seqCall (.get k) s).2.val = (s.get k).getD 0 ∧
+      (seqCall (.get k) s).2.ok = (s.get k).isSome ∧
+    (seqCall (.has k) s).1 = s ∧ (seqCall (.has k) s).2.ok = (s.get k).isSome ∧
+    (seqCall (.contains k) s).2.ok = (s.get k).isSome ∧
+    -- Set
+    (∀ k', (seqCall (.set k v) s).1.get k' = if k' = k then some v else s.get k') ∧
+    -- SetNx: stores iff absent, answers `!ok`
+    ((seqCall (.setNx k v) s).2.ok = (s.get k).isSome ∧
+      ∀ k', (seqCall (.setNx k v) s).1.get k'
+        = if k' = k ∧ s.get k = none then some v else s.get k') ∧
+    -- SetX: stores iff present, answers `ok`; never creates a key
+    ((seqCall (.setX k v) s).2.ok = (s.get k).isSome ∧
+      (s.get k = none → (seqCall (.setX k v) s).1 = s) ∧
+      ∀ k', (seqCall (.setX k v) s).1.get k'
+        = if k' = k ∧ (s.get k).isSome then some v else s.get k') ∧
+    -- Delete
+    (∀ ks k', (seqCall (.delete ks) s).1.get k' = if k' ∈ ks then none else s.get k') ∧
+    -- Len / Keys / Values / Range / All: one snapshot of the whole map
+    (seqCall .len s).2.n = s.length ∧ (seqCall .len s).1 = s ∧
+    (seqCall .keys s).2.out = s ∧ (seqCall .keys s).1 = s ∧
+    (seqCall .values s).2.out = s ∧ (seqCall .values s).1 = s ∧
+    (∀ lim, (seqCall (.range lim) s).2.out = s.take (max lim 1) ∧ (seqCall (.range lim) s).1 = s) ∧
+    (∀ lim, (seqCall (.all lim) s).2.out = s.take (max lim 1) ∧ (seqCall (.all lim) s).1 = s) ∧
+    -- GetWithMap / Clear / Map
+    (∀ m, (seqCall (.getWithMap m) s).2.out = m.map (fillFrom s) ∧ (seqCall (.getWithMap m) s).1 = s) ∧
+    (seqCall .clear s).1 = [] ∧
+    (∀ g, seqCall (.map g) s = g s {}) := by
+  have hsx : ∀ k', (seqCall (.setX k v) s).1.get k'
+      = if k' = k ∧ (s.get k).isSome then some v else s.get k' := by
+    intro k'
+    by_cases h : (s.get k).isSome = true
+    · have : (seqCall (.setX k v) s).1 = s.set k v := by
+        simp [seqCall, body, runActs, Act.apply, aLock, aUnlock, rdLookup, rd, wr, Call.init, h]
+      rw [this, KV.get_set]; simp [h]
+    · have hn : s.get k = none := by simpa using h
+      rw [seqCall_setX_absent s k v hn]; simp [hn]
+  have hsx0 : (seqCall (.setX k v) s).2.ok = (s.get k).isSome := by
+    by_cases h : (s.get k).isSome = true <;>
+      simp [seqCall, body, runActs, Act.apply, aLock, aUnlock, rdLookup, rd, wr, Call.init, h]
+  refine ⟨rfl, rfl, rfl, rfl, rfl, rfl, fun k' => ?_, ⟨?_, fun k' => ?_⟩,
+    ⟨hsx0, fun h => by rw [seqCall_setX_absent s k v h], hsx⟩, fun ks k' => ?_,
+    rfl, rfl, rfl, rfl, rfl, rfl, fun _ => ⟨rfl, rfl⟩, fun _ => ⟨rfl, rfl⟩, fun _ => ⟨rfl, rfl⟩, rfl,
+    fun _ => rfl⟩
+  · exact KV.get_set s k v k'
+  · rw [seqCall_setNx]
+  · rw [seqCall_setNx]
+    by_cases h : (s.get k).isSome = true
+    · have : s.get k ≠ none := by
+        intro hn; rw [hn] at h; cases h
+      simp [h, this]
+    · have hn : s.get k = none := by simpa using h
+      simp [hn, KV.get_set]
+  · exact KV.get_foldl_del ks s k'
+
+/-- Corollary (`SetX` never creates a key), sequentially; by `c12_atomic` every
+concurrent history is such a sequential history. -/
+theorem c12_setx_never_creates (s : KV) (k v : Int) (h : s.get k = none) :
+    (seqCall (.setX k v) s).1 = s ∧ (seqCall (.setX k v) s).2.ok = false := by
+  rw [seqCall_setX_absent s k v h]; exact ⟨rfl, rfl⟩
+
+/-- Corollary (`|Keys()|` = size of the map at one instant): in every reachable
+configuration a finished `Keys()` call returned exactly the content the map has in the
+sequential history at the call's critical-section entry — stated sequentially: the
+returned list IS the map. -/
+theorem c12_keys_snapshot (s : KV) :
+    ((seqCall .keys s).2.out.map (·.1)).length = s.length ∧ (seqCall .keys s).2.out = s := by
+  exact ⟨by simp [show (seqCall .keys s).2.out = s from rfl], rfl⟩
+
+/-- Corollary (one winner among concurrent `SetNx` on an absent key): any number of
+goroutines call `SetNx(k, ·)` concurrently on a map without `k`.  In every reachable
+configuration, a finished call returned `true` (`ok = false`) iff it was the first to
+enter its critical section — so exactly one of them wins, whatever the schedule. -/
+theorem c12_setnx_one_winner (s₀ : KV) (k : Int) (vals : Nat → Int) (hk : s₀.get k = none)
+    (c : Conf KV Loc)
+    (hr : Reach (Conf.init s₀ (fun t => body (.setNx k (vals t))) (fun _ => {})) c) :
+    ∀ t ∈ c.order, (c.th t).rest = [] → ((c.th t).loc.ok = false ↔ c.order.head? = some t) := by
+  intro t ht hdone
+  have hat := c12_atomic s₀ (fun t => body (.setNx k (vals t))) (fun _ => ({} : Loc))
+    (fun t => c12_bodies_ok (.setNx k (vals t))) c hr
+  have hl := hat.2.2.1 t ht hdone
+  cases ho : c.order with
+  | nil => rw [ho] at ht; cases ht
+  | cons t0 ts =>
+    rw [ho] at hl
+    obtain ⟨r, rest, hq, hr0, hrest⟩ := seqExec_setNx_absent k vals t0 ts s₀ hk
+    rw [hq, List.lookup_cons] at hl
+    by_cases h0 : t = t0
+    · subst h0
+      simp only [beq_self_eq_true, Option.some.injEq] at hl
+      simp [← hl, hr0]
+    · have hb : (t == t0) = false := by simpa using h0
+      simp only [hb] at hl
+      have := hrest _ (mem_of_lookup hl)
+      simp only [] at this
+      simp [this, List.head?, Ne.symm h0]
+
 /-- Non-vacuity: the hypothesis is met by concrete bodies, e.g. `SetNx` and `Keys`. -/
 example : wellLocked (evs (body (.setNx 1 2))) = true ∧ wellLocked (evs (body .keys)) = true :=
   ⟨rfl, rfl⟩
+
+/-- Non-vacuity of `c12_atomic` / `c12_setnx_one_winner`: the hypotheses are met by the
+SafeKV bodies, and configurations inside a critical section are reachable: goroutine 0
+has entered `SetNx(1, 5)` (it is first in `order`) while every other goroutine still
+stands before its `Lock`. -/
+example : ∃ c : Conf KV Loc,
+    Reach (Conf.init [] (fun t => body (.setNx 1 (Int.ofNat t))) (fun _ => {})) c ∧
+    c.order = [0] ∧ (c.th 0).mode = .w ∧ (c.th 1).mode = .free := by
+  refine ⟨_, Reach.step Reach.refl
+    (Step.mk _ 0 aLock [rdLookup 1, wr (fun s l => if !l.ok then (s.set 1 (Int.ofNat 0), l) else (s, l)), aUnlock]
+      rfl (fun _ => rfl)), rfl, rfl, rfl⟩
 
 end Golib.C12
